@@ -4,6 +4,8 @@ import PwVerif.Proofs.CacheForest
 import PwVerif.Proofs.CacheFetch
 import PwVerif.Proofs.CacheFetchTree
 import PwVerif.Proofs.CacheCmp
+import PwVerif.Proofs.CacheSer
+import PwVerif.Proofs.CacheFor
 /-!
 # C05 — Caching is transparent: a run served from cache equals a real run
 
@@ -439,6 +441,21 @@ theorem C05_replace_keeps_cache_witness :
     evalP natSem 4 [] [(1, .leaf 19 [.val 7])] 1 = some 19008 := by
   decide
 
+/-- a child run BY HAND between two runs of the graph: with the repair (that run drops the record of every composite
+above it that is not itself running) it is an admissible step of a history — `C05_forest_transparent` covers it -/
+theorem C05_forest_hand_run_ok {ρ : Type} (S : Sem ρ) (l : Nat) : OpOk S (PwVerif.CacheForest.Op.handRun l true) := rfl
+
+/-- /repo as it is (the record stays): run; set the child's input to 8 and run the child by hand; set it back to 7;
+run — the root answers from its record, but the child's output is the one for 8 (replayed on /repo, KF-C05-10) -/
+theorem C05_hand_run_witness :
+    let r0 : Root Nat := { kids := [(1, freshLeaf natSem 10 [.val 7])], cache := none }
+    let ops := fun (clear : Bool) => ([.run, .edit (mapKidC 1 (TC.setIn 0 (.val 8))), .handRun 1 clear,
+      .edit (mapKidC 1 (TC.setIn 0 (.val 7))), .run] : List (PwVerif.CacheForest.Op Nat))
+    (runOpsC natSem KCfg.now 4 r0 (ops false)).map (fun p => p.2.map Root.outs) = some [[(1, 10008)], [(1, 10009)]] ∧
+    (runOpsC natSem KCfg.now 4 r0 (ops true)).map (fun p => p.2.map Root.outs) = some [[(1, 10008)], [(1, 10008)]] ∧
+    evalP natSem 4 [] [(1, .leaf 10 [.val 7])] 1 = some 10008 := by
+  decide
+
 end Forest
 
 /-! ## a composite hit and the values held by connected inputs (`PwVerif.CacheFetch`, finding KF-C05-7) -/
@@ -562,6 +579,63 @@ theorem C05_cmp_typed_sound {O : Type} (G : Nat × List Nat × Nat → O) (v c :
   rw [h.1.1, h.1.2, h.2]
 
 end Cmp
+
+/-! ## a result picked up from its serialized file (`PwVerif.CacheSer`) -/
+section Ser
+open PwVerif.CacheSer
+
+/-- /repo (an admitted run drops the input record): for every history of assignments, local runs, serialized
+submissions, jobs done with the future withheld, pick-ups from the file and late deliveries, cached node and twin
+return the same and stay in the same visible state (no submission answered from the cache) -/
+theorem C05_ser_transparent (ops : List PwVerif.CacheSer.Op) (hok : noSubmitHit true PwVerif.CacheSer.N.init ops = true) :
+    (PwVerif.CacheSer.runOps true true PwVerif.CacheSer.N.init ops).2 =
+      (PwVerif.CacheSer.runOps true false PwVerif.CacheSer.N.init ops).2 ∧
+    (PwVerif.CacheSer.runOps true true PwVerif.CacheSer.N.init ops).1.visible =
+      (PwVerif.CacheSer.runOps true false PwVerif.CacheSer.N.init ops).1.visible := by
+  obtain ⟨h1, h2⟩ := PwVerif.CacheSer.runOps_sim ops _ _
+    ⟨rfl, rfl, rfl, rfl, rfl, rfl, by simp [PwVerif.CacheSer.N.init], by simp [PwVerif.CacheSer.N.init]⟩ hok
+  exact ⟨h1, by simp [PwVerif.CacheSer.N.visible, h2.inp, h2.out, h2.running]⟩
+
+/-- the record of x=1 kept through the admission of x=2 (seeded change C05-12): run 1; submit 2; the job writes its file;
+run() picks it up (outputs now belong to 2, the record still says 1); set 1; run ⇒ answered with 2's outputs -/
+def serOps : List PwVerif.CacheSer.Op := [.set 1, .run, .set 2, .ssubmit, .work, .run, .set 1, .run]
+theorem C05_ser_stale_record_witness :
+    (PwVerif.CacheSer.runOps false true PwVerif.CacheSer.N.init serOps).2 ≠
+      (PwVerif.CacheSer.runOps false false PwVerif.CacheSer.N.init serOps).2 ∧
+    (PwVerif.CacheSer.runOps true true PwVerif.CacheSer.N.init serOps).2 =
+      (PwVerif.CacheSer.runOps true false PwVerif.CacheSer.N.init serOps).2 ∧
+    noSubmitHit true PwVerif.CacheSer.N.init serOps = true := by
+  refine ⟨by decide, by decide, by decide⟩
+
+end Ser
+
+/-! ## a for-loop node: the body is rebuilt on every miss (`PwVerif.CacheFor`) -/
+section ForLoop
+open PwVerif.CacheFor
+open PwVerif.CacheTree (T Src KCfg Sem)
+
+/-- whatever is done to the body by hand between runs, and however the body is built from the inputs: the cached loop and
+its cache-free twin return the same, for every history of input assignments, body edits and runs -/
+theorem C05_for_transparent {ρ : Type} [DecidableEq ρ] (S : Sem ρ) (fuel : Nat) (build : List ρ → List (Nat × T))
+    (vals : List ρ) (kids : List (Nat × T)) (outs : List (Nat × ρ)) (ops : List (PwVerif.CacheFor.Op ρ)) :
+    (PwVerif.CacheFor.runOps S KCfg.now fuel build true true { vals := vals, kids := kids, outs := outs, cache := none } ops).2 =
+    (PwVerif.CacheFor.runOps S KCfg.now fuel build true false { vals := vals, kids := kids, outs := outs, cache := none } ops).2 :=
+  PwVerif.CacheFor.runOps_sim S fuel build ops _ _ ⟨rfl, by simp⟩
+
+/-- one body node per looped item, with a broadcast "factor" 2 -/
+def forBuild : List Nat → List (Nat × T) := fun vs => (List.range vs.length).map (fun i => (i, T.leaf 10 [.link i, .val 2]))
+/-- run; by hand: factor of body node 1 := 10; run with the same input -/
+def forOps : List (PwVerif.CacheFor.Op Nat) := [.run, .edit [(0, .leaf 10 [.link 0, .val 2]), (1, .leaf 10 [.link 1, .val 10])], .run]
+
+/-- a miss that does not rebuild (seeded change C05-10) keeps the hand edit; the twin rebuilds and loses it -/
+theorem C05_for_no_rebuild_witness :
+    (PwVerif.CacheFor.runOps natSem KCfg.now 4 forBuild false true { vals := [5, 6], kids := [], outs := [], cache := none } forOps).2 ≠
+    (PwVerif.CacheFor.runOps natSem KCfg.now 4 forBuild false false { vals := [5, 6], kids := [], outs := [], cache := none } forOps).2 ∧
+    (PwVerif.CacheFor.runOps natSem KCfg.now 4 forBuild true true { vals := [5, 6], kids := [], outs := [], cache := none } forOps).2 =
+    (PwVerif.CacheFor.runOps natSem KCfg.now 4 forBuild true false { vals := [5, 6], kids := [], outs := [], cache := none } forOps).2 := by
+  refine ⟨by decide, by decide⟩
+
+end ForLoop
 end PwVerif.C05
 
 #print axioms PwVerif.C05.C05_transparent
@@ -607,3 +681,9 @@ end PwVerif.C05
 #print axioms PwVerif.C05.C05_cmp_current_witness
 #print axioms PwVerif.C05.C05_cmp_broadcast_witness
 #print axioms PwVerif.C05.C05_cmp_typed_sound
+#print axioms PwVerif.C05.C05_forest_hand_run_ok
+#print axioms PwVerif.C05.C05_hand_run_witness
+#print axioms PwVerif.C05.C05_ser_transparent
+#print axioms PwVerif.C05.C05_ser_stale_record_witness
+#print axioms PwVerif.C05.C05_for_transparent
+#print axioms PwVerif.C05.C05_for_no_rebuild_witness
